@@ -32,7 +32,8 @@ func buildPool(thorough bool) []*stmtT {
 		// --- SELECT family on t1(a,b)
 		mk("sel-eq-1", selAB("t1", eq("a", ival("1")))),
 		mk("sel-eq-2", selAB("t1", eq("a", ival("2")))),
-		mk("sel-eq-str", selAB("t1", eq("c", sval("x")))),
+		// (the literal carries comment delimiters: margin comments must be told from the body)
+		mk("sel-eq-str", selAB("t1", eq("c", sval("/* x */y")))),
 		mk("sel-eq-col", selAB("t1", eq("a", col("b")))),
 		mk("sel-t2", selAB("t2", eq("a", ival("1")))),
 		mk("sel-star", sel(cols(star()), from(tbl("t1")), where(eq("a", ival("1"))))),
